@@ -54,6 +54,39 @@ static std::string program(unsigned id, bool yields)
    return trace.str();
 }
 
+// The answers of the process-wide tables behind Lexicon::specifiers(b) / qualifiers(q), asked at a high rate by threads that
+// share nothing: each thread has its own Lexicon and walks the basic names in its own order; every answer is compared with the
+// named accessor of the same Lexicon.
+static long hot_lookups(unsigned id, long iterations)
+{
+   impl::Lexicon lex;
+   const char* words[] = { "export", "static", "extern", "mutable", "thread_local", "register", "inline", "constexpr", "consteval",
+                           "virtual", "explicit", "friend", "typedef", "public", "protected", "private" };
+   const ipr::Specifiers want[] = { lex.export_specifier(), lex.static_specifier(), lex.extern_specifier(), lex.mutable_specifier(),
+                                    lex.thread_local_specifier(), lex.register_specifier(), lex.inline_specifier(), lex.constexpr_specifier(),
+                                    lex.consteval_specifier(), lex.virtual_specifier(), lex.explicit_specifier(), lex.friend_specifier(),
+                                    lex.typedef_specifier(), lex.public_specifier(), lex.protected_specifier(), lex.private_specifier() };
+   const char* qwords[] = { "const", "volatile", "restrict" };
+   const ipr::Qualifiers qwant[] = { lex.const_qualifier(), lex.volatile_qualifier(), lex.restrict_qualifier() };
+   std::vector<ipr::Basic_specifier> bs;
+   std::vector<ipr::Basic_qualifier> bq;
+   auto logo = [&](const char* w) -> const ipr::Logogram& {
+      std::string s = w;
+      return lex.get_logogram(lex.get_string(util::word_view(reinterpret_cast<const char8_t*>(s.data()), s.size())));
+   };
+   for (auto w : words) bs.push_back(ipr::Basic_specifier{ logo(w) });
+   for (auto w : qwords) bq.push_back(ipr::Basic_qualifier{ logo(w) });
+   long wrong = 0;
+   std::size_t k = id * 5u;
+   for (long i = 0; i < iterations; ++i) {
+      k = (k + 1 + id % 7) % bs.size();
+      if (lex.specifiers(bs[k]) != want[k]) ++wrong;
+      std::size_t q = (i + id) % bq.size();
+      if (lex.qualifiers(bq[q]) != qwant[q]) ++wrong;
+   }
+   return wrong;
+}
+
 int main(int argc, char** argv)
 {
    int threads = argc > 1 ? std::atoi(argv[1]) : 4;
@@ -68,6 +101,15 @@ int main(int argc, char** argv)
          ts.emplace_back([&, i] { got[i] = program(seed + r * 131 + i % 3, true); });
       for (auto& t : ts) t.join();
       for (int i = 0; i < threads; ++i) { ++runs; if (got[i] != want[i]) { ++mismatches; std::printf("mismatch round=%d thread=%d\n", r, i); } }
+   }
+   // hot table look-ups from all threads at once
+   {
+      std::vector<long> wrong(threads, 0);
+      std::vector<std::thread> ts;
+      long iterations = 150000L * rounds;
+      for (int i = 0; i < threads; ++i) ts.emplace_back([&, i] { wrong[i] = hot_lookups(unsigned(i + seed), iterations); });
+      for (auto& t : ts) t.join();
+      for (int i = 0; i < threads; ++i) { ++runs; if (wrong[i]) { ++mismatches; std::printf("mismatch hot-lookups thread=%d wrong-answers=%ld of %ld\n", i, wrong[i], 2 * iterations); } }
    }
    std::printf("threads=%d rounds=%d runs=%ld mismatches=%ld\n", threads, rounds, runs, mismatches);
    return 0;
